@@ -34,6 +34,9 @@ type Eval struct {
 	pkg   *types.Package
 	loop  *loopInfo
 	prev  *State // iteration-start snapshot for prev(e) in `loop N step` clauses
+	// frameFrom != nil: havocTarget does not invent fresh values but copies, for every declared target, the value the
+	// location has in frameFrom (frame check: "the state reached differs from the entry state only at declared targets")
+	frameFrom *State
 }
 
 // loopOwnsAlloc: the rangeindex alloc belongs to the loop whose header stores to it.
@@ -859,6 +862,10 @@ func (ev *Eval) call(e *Expr) *Value {
 		if x.L[0] == nil {
 			ev.fail("fresh of a local address")
 		}
+		// at a call site (callee contract) "this execution" is the call: allocated after the pre-state watermark
+		if ev.mode == evalCall && ev.old != nil && ev.old != ev.st {
+			return scalar(specBool, Gt(x.L[0], ev.old.wm))
+		}
 		return scalar(specBool, Gt(x.L[0], Const("wm0", SInt)))
 	case "payload":
 		// payload(x): the data word of an interface value (the pointer itself when the dynamic type is a pointer)
@@ -896,7 +903,9 @@ func (ev *Eval) call(e *Expr) *Value {
 			}
 			return scalar(rt, App("uf!"+pf.Name, specs[0].Sort, ts...))
 		}
-		sub := &Eval{v: ev.v, st: ev.st, old: ev.old, env: map[string]*Value{}, bound: ev.bound, mode: evalCall, fn: nil, inOld: ev.inOld, pkg: ev.pkg}
+		// the body of a pure function is lexically closed: the caller's quantified variables are not visible in it
+		// (a parameter named like one of them would otherwise be captured)
+		sub := &Eval{v: ev.v, st: ev.st, old: ev.old, env: map[string]*Value{}, bound: map[string]*Value{}, mode: evalCall, fn: nil, inOld: ev.inOld, pkg: ev.pkg}
 		for i, p := range pf.Params {
 			sub.env[p] = args[i]
 		}
@@ -958,9 +967,17 @@ func (ev *Eval) lookupMethod(t types.Type, name string) *ssa.Function {
 // havocTarget implements `modifies` targets at call sites.
 func (ev *Eval) havocTarget(e *Expr) {
 	s := ev.st
+	ff := ev.frameFrom
+	if e.Op == "id" && e.Name == "anything" {
+		ev.havocEverything()
+		return
+	}
+	if e.Op == "id" && e.Name == "nothing" {
+		return
+	}
 	switch e.Op {
 	case "field":
-		x := ev.eval(e.Args[0])
+		x := ev.evalPre(e.Args[0])
 		p, ok := under(x.T).(*types.Pointer)
 		if !ok {
 			ev.fail("modifies %q: base is not a pointer", e.Text)
@@ -973,7 +990,11 @@ func (ev *Eval) havocTarget(e *Expr) {
 					gt := ev.resolveType(g.Typ)
 					for _, hk := range heapKeys("G:"+typeName(st)+"."+e.Name, gt, SInt) {
 						_, inner, _ := arrayParts(hk.sort)
-						s.heap[hk.name] = Store(s.heapArr(hk.name, hk.sort), x.term(), Fresh("mod!"+hk.name, inner))
+						nv := Fresh("mod!"+hk.name, inner)
+						if ff != nil {
+							nv = Select(ff.heapArr(hk.name, hk.sort), x.term())
+						}
+						s.heap[hk.name] = Store(s.heapArr(hk.name, hk.sort), x.term(), nv)
 					}
 					return
 				}
@@ -981,6 +1002,10 @@ func (ev *Eval) havocTarget(e *Expr) {
 		}
 		for i := 0; i < u.NumFields(); i++ {
 			if u.Field(i).Name() == e.Name {
+				if ff != nil {
+					s.storeStructField(x.term(), st, i, ff.loadStructField(x.term(), st, i))
+					return
+				}
 				nv := freshValue("mod!"+e.Name, u.Field(i).Type())
 				s.bumpWM()
 				s.assumeAllocated(nv)
@@ -990,7 +1015,7 @@ func (ev *Eval) havocTarget(e *Expr) {
 		}
 		ev.fail("modifies %q: no such field", e.Text)
 	case "star":
-		x := ev.eval(e.Args[0])
+		x := ev.evalPre(e.Args[0])
 		switch u := under(x.T).(type) {
 		case *types.Slice:
 			et := u.Elem()
@@ -1002,58 +1027,98 @@ func (ev *Eval) havocTarget(e *Expr) {
 				i := BoundVar("i!mod", SInt)
 				old := Select(h, x.sArr())
 				outside := Or(Lt(i, x.sOff()), Ge(i, Add(x.sOff(), x.sLen())))
-				s.assume(Forall([]*Term{i}, Implies(outside, Eq(Select(na, i), Select(old, i))), []*Term{Select(na, i)}))
+				if ff != nil {
+					cur := Select(ff.heapArr(hk.name, hk.sort), x.sArr())
+					ff.assume(Forall([]*Term{i}, Eq(Select(na, i), Ite(outside, Select(old, i), Select(cur, i))), []*Term{Select(na, i)}))
+					s.heap[hk.name] = Store(h, x.sArr(), na)
+					continue
+				}
+				addFact(na, Forall([]*Term{i}, Implies(outside, Eq(Select(na, i), Select(old, i))), []*Term{Select(na, i)}))
+				if isRefLeaf(hk.spec) {
+					i2 := BoundVar("i!modab", SInt)
+					addFact(na, Forall([]*Term{i2}, Le(Select(na, i2), s.wm), []*Term{Select(na, i2)}))
+				}
 				s.heap[hk.name] = Store(h, x.sArr(), na)
 			}
 		case *types.Map:
 			ms := map[string]Sort{}
 			addMapKeys(ms, x.T)
+			if ff == nil {
+				s.bumpWM()
+			}
 			for _, k := range sortedKeys(ms) {
 				h := s.heapArr(k, ms[k])
 				_, inner, _ := arrayParts(ms[k])
-				s.heap[k] = Store(h, x.term(), Fresh("mod!map", inner))
+				nv := Fresh("mod!map", inner)
+				if ff != nil {
+					nv = Select(ff.heapArr(k, ms[k]), x.term())
+				}
+				s.heap[k] = Store(h, x.term(), nv)
+			}
+			if ff == nil {
+				ev.v.assumeMapValuesAllocated(s, x)
 			}
 		case *types.Pointer:
-			if isStruct(u.Elem()) {
-				s.storeStruct(x.term(), u.Elem(), freshValue("mod!obj", u.Elem()))
-			} else {
-				s.storePtr(x.term(), u.Elem(), freshValue("mod!ptr", u.Elem()))
-			}
+			ev.havocPointee(x, u)
 		default:
 			ev.fail("modifies %q: unsupported target", e.Text)
 		}
 	case "id":
 		// ghost global
 		if g, ok := s.ghost[e.Name]; ok {
+			if ff != nil {
+				if cur, ok := ff.ghost[e.Name]; ok {
+					s.ghost[e.Name] = cur
+				}
+				return
+			}
 			s.ghost[e.Name] = freshValue("mod!"+e.Name, g.T)
 			return
 		}
-		// whole-heap family by name: `modifies heap(F:T.f)` not supported; treat identifiers naming pointer params as *p
-		x := ev.eval(e)
+		// identifiers naming pointer params are treated as *p
+		x := ev.evalPre(e)
 		if p, ok := under(x.T).(*types.Pointer); ok {
-			if isStruct(p.Elem()) {
-				s.storeStruct(x.term(), p.Elem(), freshValue("mod!obj", p.Elem()))
-			} else {
-				s.storePtr(x.term(), p.Elem(), freshValue("mod!ptr", p.Elem()))
-			}
+			ev.havocPointee(x, p)
 			return
 		}
 		ev.fail("modifies %q: not a ghost variable or pointer", e.Text)
 	case "call":
 		if e.Name == "once" && len(e.Args) == 1 {
-			a := ev.evalAddr(e.Args[0])
+			a := ev.evalAddrPre(e.Args[0])
 			slot, idx := onceSlot(a)
 			h := s.heapArr(slot, onceSort)
-			s.heap[slot] = Store(h, idx, Fresh("mod!once", SBool))
+			nv := Fresh("mod!once", SBool)
+			if ff != nil {
+				nv = Select(ff.heapArr(slot, onceSort), idx)
+			}
+			s.heap[slot] = Store(h, idx, nv)
 			return
 		}
 		if e.Name == "heap" && len(e.Args) == 1 && e.Args[0].Op == "str" {
 			// modifies heap("F:pkg.T.f"): whole heap family
-			prefix := e.Args[0].Name
-			for _, k := range sortedKeys(s.heap) {
-				if strings.HasPrefix(k, prefix) {
-					s.heap[k] = Fresh("mod!"+k, s.heap[k].sort)
+			ev.havocPrefix(e.Args[0].Name)
+			return
+		}
+		if e.Name == "backing" && len(e.Args) == 1 {
+			// modifies backing(s): every element of the array slice s points into (also beyond len: append writes there)
+			x := ev.evalPre(e.Args[0])
+			u, ok := under(x.T).(*types.Slice)
+			if !ok {
+				ev.fail("modifies %q: backing needs a slice", e.Text)
+			}
+			et := u.Elem()
+			for _, hk := range heapKeys(elemBase(et), et, SInt, SInt) {
+				h := s.heapArr(hk.name, hk.sort)
+				_, inner, _ := arrayParts(hk.sort)
+				na := Fresh("mod!backing", inner)
+				if ff != nil {
+					na = Select(ff.heapArr(hk.name, hk.sort), x.sArr())
+				} else if isRefLeaf(hk.spec) {
+					i2 := BoundVar("i!modab", SInt)
+					s.bumpWM()
+					addFact(na, Forall([]*Term{i2}, Le(Select(na, i2), s.wm), []*Term{Select(na, i2)}))
 				}
+				s.heap[hk.name] = Store(h, x.sArr(), na)
 			}
 			return
 		}
@@ -1063,6 +1128,86 @@ func (ev *Eval) havocTarget(e *Expr) {
 	}
 }
 
+// evalPre evaluates the location expression of a modifies target in the pre-state of the call: every target of a
+// `modifies` list denotes a location of the state before the call, whatever the order the targets are written in.
+func (ev *Eval) evalPre(e *Expr) *Value {
+	if ev.old == nil || ev.inOld {
+		return ev.eval(e)
+	}
+	ev.inOld = true
+	defer func() { ev.inOld = false }()
+	return ev.eval(e)
+}
+
+func (ev *Eval) evalAddrPre(e *Expr) *Value {
+	if ev.old == nil || ev.inOld {
+		return ev.evalAddr(e)
+	}
+	ev.inOld = true
+	defer func() { ev.inOld = false }()
+	return ev.evalAddr(e)
+}
+
+func (ev *Eval) havocPointee(x *Value, p *types.Pointer) {
+	s := ev.st
+	if isStruct(p.Elem()) {
+		nv := (*Value)(nil)
+		if ev.frameFrom != nil {
+			nv = ev.frameFrom.loadStruct(x.term(), p.Elem())
+		} else {
+			nv = freshValue("mod!obj", p.Elem())
+		}
+		s.storeStruct(x.term(), p.Elem(), nv)
+		return
+	}
+	if ev.frameFrom != nil {
+		s.storePtr(x.term(), p.Elem(), ev.frameFrom.loadPtr(x.term(), p.Elem()))
+		return
+	}
+	s.storePtr(x.term(), p.Elem(), freshValue("mod!ptr", p.Elem()))
+}
+
+// havocPrefix: every heap array whose name starts with prefix is unknown afterwards, including arrays that no
+// instruction has touched so far on this path (they are given a fresh value when first used).
+func (ev *Eval) havocPrefix(prefix string) {
+	s := ev.st
+	if ff := ev.frameFrom; ff != nil {
+		for _, k := range sortedKeys(ff.heap) {
+			if strings.HasPrefix(k, prefix) {
+				s.heap[k] = ff.heap[k]
+			}
+		}
+		return
+	}
+	s.bumpWM()
+	for _, k := range sortedKeys(s.heap) {
+		if strings.HasPrefix(k, prefix) {
+			s.freshHeap("mod!", k, s.heap[k].sort)
+		}
+	}
+	s.lazyHavoc = append(s.lazyHavoc[:len(s.lazyHavoc):len(s.lazyHavoc)], lazyHavoc{prefix: prefix, wm: s.wm})
+}
+
+// havocEverything (`modifies anything`): all heap arrays and ghost globals are unknown afterwards.
+func (ev *Eval) havocEverything() {
+	s := ev.st
+	if ff := ev.frameFrom; ff != nil {
+		for _, k := range sortedKeys(ff.heap) {
+			s.heap[k] = ff.heap[k]
+		}
+		for _, k := range sortedKeys(ff.ghost) {
+			s.ghost[k] = ff.ghost[k]
+		}
+		return
+	}
+	ev.havocPrefix("")
+	for _, k := range sortedKeys(s.ghost) {
+		if strings.HasPrefix(k, "$") {
+			continue
+		}
+		s.ghost[k] = freshValue("mod!"+k, s.ghost[k].T)
+	}
+}
 
 // inferPatterns picks E-matching triggers: select/app terms mentioning bound variables, free of boolean structure.
 func inferPatterns(vars []*Term, body *Term) [][]*Term {
@@ -1131,6 +1276,74 @@ func inferPatterns(vars []*Term, body *Term) [][]*Term {
 		}
 	}
 	collect(body, false)
+	// matching loops: a candidate f(x) over a bare variable is dropped when the body also contains f(t(x)) for a
+	// non-variable t -- every instance would create a new, larger term that matches f(x) again
+	{
+		var all []*Term
+		seenAll := map[int]bool{}
+		var walk func(t *Term)
+		walk = func(t *Term) {
+			if seenAll[t.id] || !t.bound {
+				return
+			}
+			seenAll[t.id] = true
+			if t.op == "select" || t.op == "app" {
+				all = append(all, t)
+			}
+			for _, a := range t.args {
+				walk(a)
+			}
+		}
+		walk(body)
+		var match func(c, d *Term, sub map[int]*Term) bool
+		match = func(c, d *Term, sub map[int]*Term) bool {
+			if c.op == "var" && isVar[c.id] {
+				if prev, ok := sub[c.id]; ok {
+					return prev == d
+				}
+				sub[c.id] = d
+				return true
+			}
+			if !c.bound {
+				return c == d
+			}
+			if c.op != d.op || c.name != d.name || len(c.args) != len(d.args) {
+				return false
+			}
+			for i := range c.args {
+				if !match(c.args[i], d.args[i], sub) {
+					return false
+				}
+			}
+			return true
+		}
+		loops := func(c *Term) bool {
+			for _, d := range all {
+				if d == c {
+					continue
+				}
+				sub := map[int]*Term{}
+				if !match(c, d, sub) {
+					continue
+				}
+				for _, t := range sub {
+					if t.bound && !(t.op == "var" && isVar[t.id]) {
+						return true
+					}
+				}
+			}
+			return false
+		}
+		kept := cands[:0:0]
+		for _, c := range cands {
+			if !loops(c) {
+				kept = append(kept, c)
+			}
+		}
+		if len(kept) > 0 {
+			cands = kept
+		}
+	}
 	if len(cands) == 0 {
 		return nil
 	}
